@@ -19,6 +19,7 @@ type Clause struct {
 	label string
 	text  string
 	loop  int    // for invariant/decreases
+	without []string // invariant labels whose assumed instances are dropped when proving this clause
 	at    string // for kind "at": label name, or "call:NAME#K"
 	callPos token.Pos
 	callExtra []string
@@ -56,7 +57,17 @@ func (c *Contract) get(kind string) []*Clause {
 	return out
 }
 
-var labelRE = regexp.MustCompile(`^([a-zA-Z][a-zA-Z0-9_\-]*):\s+(.*)$`)
+var labelRE = regexp.MustCompile(`^([a-zA-Z][a-zA-Z0-9_\-]*)(?:\s+without\s+([a-zA-Z0-9_,#\-]+))?:\s+(.*)$`)
+
+// setLabel splits "label [without a,b]: expr".
+func (cl *Clause) setLabel(text string) {
+	if m := labelRE.FindStringSubmatch(text); m != nil {
+		cl.label, cl.text = m[1], m[3]
+		if m[2] != "" {
+			cl.without = strings.Split(m[2], ",")
+		}
+	}
+}
 
 // parseContracts scans the verif files of a package.
 func parseContracts(pkg *packages.Package) ([]*Contract, error) {
@@ -145,8 +156,8 @@ func parseContracts(pkg *packages.Package) ([]*Contract, error) {
 					cur.mode = "assumed"
 				case "requires", "ensures", "modifies", "assert":
 					cl := &Clause{kind: word, text: rest, pos: pos}
-					if m := labelRE.FindStringSubmatch(rest); m != nil && word != "modifies" {
-						cl.label, cl.text = m[1], m[2]
+					if word != "modifies" {
+						cl.setLabel(rest)
 					}
 					cur.clauses = append(cur.clauses, cl)
 					last = cl
@@ -165,9 +176,7 @@ func parseContracts(pkg *packages.Package) ([]*Contract, error) {
 						return nil, fmt.Errorf("%s: at LABEL assert EXPR", pos)
 					}
 					cl := &Clause{kind: "at", text: fs[2], at: fs[0], pos: pos}
-					if m := labelRE.FindStringSubmatch(cl.text); m != nil {
-						cl.label, cl.text = m[1], m[2]
-					}
+					cl.setLabel(cl.text)
 					cur.clauses = append(cur.clauses, cl)
 					last = cl
 				case "loop":
@@ -183,9 +192,7 @@ func parseContracts(pkg *packages.Package) ([]*Contract, error) {
 						return nil, fmt.Errorf("%s: loop clause must be invariant, decreases or hint", pos)
 					}
 					cl := &Clause{kind: fs[1], text: fs[2], loop: k, pos: pos}
-					if m := labelRE.FindStringSubmatch(cl.text); m != nil {
-						cl.label, cl.text = m[1], m[2]
-					}
+					cl.setLabel(cl.text)
 					cur.clauses = append(cur.clauses, cl)
 					last = cl
 				default:
